@@ -377,19 +377,24 @@ def _execute(sc, root, want_texts):
         if not wanted:
             continue
         cwd = store if st["cwd"] == "store" else other
-        tasks = []
+        # the fresh references are compiled and observed *before* anything is loaded in the
+        # reader: a load that disturbs process-wide state must not be able to hide itself by
+        # disturbing its own reference in the same way
+        load_tasks = []
+        fresh_tasks = []
         plan_names = []
         for load, key in wanted:
             rel = load if st["cwd"] == "store" else os.path.join("..", "store", load)
-            tasks.append({"op": "load", "name": rel})
+            load_tasks.append({"op": "load", "name": rel})
             ent = model[key]
             if not ent.get("unknown"):
-                tasks.append({"op": "compile", "src": sc["sources"][ent["src"]], "opt": ent["opt"]})
+                fresh_tasks.append({"op": "compile", "src": sc["sources"][ent["src"]], "opt": ent["opt"]})
             plan_names.append((key, "exact" if load == key else "bare", rel))
             if load != key:
                 bump("loads_by_bare_name")
             elif not key.endswith(".nslir"):
                 bump("loads_of_suffixless_file")
+        tasks = fresh_tasks + load_tasks
         if st["how"] == "child":
             plan = {"tree": tree, "cwd": cwd, "seed": sc.get("obs_seed", 0), "tasks": tasks, "texts": bool(want_texts),
                     "out": os.path.join(root, f"read{si}.json")}
@@ -435,17 +440,18 @@ def _execute(sc, root, want_texts):
             r = _nslr_reads(sc, st, si, plan_names, model, store, cwd, tree, log, bump)
             if r is not None:
                 return done(*r[:3], **r[3])
-        k = 0
+        kf = 0
+        kl = len(fresh_tasks)
         for n, style, rel in plan_names:
-            loaded = results[k]
-            k += 1
+            loaded = results[kl]
+            kl += 1
             ent = model[n]
             if ent.get("unknown"):
                 bump("probe_load_of_unacknowledged_" + loaded["status"] + ("_" + loaded.get("exc", "") if loaded.get("exc") else ""))
                 log.add("read", name=n, judged=False, status=loaded["status"])
                 continue
-            fresh = results[k]
-            k += 1
+            fresh = results[kf]
+            kf += 1
             log.add("read", name=n, style=style, how=st["how"], hs=st["hs"], io=_io_class(st["io"]), cwd=st["cwd"],
                     status=loaded["status"],
                     d=core.digest(_strip(loaded["obs"])) if loaded["status"] == "ok" else None)
